@@ -614,6 +614,28 @@ class StateEngine(object):
 
         state_machine_type = state_machine.get("type")
         if state_machine_type == "STANDARD":
+            if self.executions.get(execution_arn) == None:
+                """
+                The execution metadata has been lost due to a StateEngine
+                restart and no history update has re-created it yet, which is
+                the case if the first thing that happens after the restart is
+                the execution failing (see update_execution_history).
+                """
+                split = execution_arn.rpartition(':')
+                arn = parse_arn(split[0])
+                arn["resource_type"] = "stateMachine"
+                self.executions[execution_arn] = {
+                    "executionArn": execution_arn,
+                    "input": None,
+                    "name": split[2],
+                    "output": None,
+                    "startDate": time.time(),
+                    "stateMachineArn": create_arn(arn),
+                    "status": "RUNNING",
+                    "stopDate": None,
+                }
+                self.execution_history[execution_arn] = []
+
             execution_detail = self.executions[execution_arn]
             state_machine_arn = execution_detail["stateMachineArn"]
         else:
